@@ -54,7 +54,7 @@ def cases(rng, tier):
 		if form == 6:
 			target = b'*' + rng.choice([b'', b'*', b'/', b'.', b'a', b'/a', b'%2a']) + (target if rng.random() < 0.5 else b'')
 		elif form == 7:
-			target = rng.choice([b':0@', b'u@', b':@', b'@']) + rng.choice([b'h:443', b'example.com:80', b'[::1]:443'])
+			target = rng.choice([b':0@', b'u@', b':@', b'@', b'', b'', b'http://', b'//']) + rng.choice([b'h:443', b'example.com:80', b'[::1]:443', b':443', b'h']) + rng.choice([b'', b'', b'/p', b'?q', b'#f', b'/'])
 		elif form == 0:
 			target = b'/' + target
 		elif form == 1:
